@@ -6,7 +6,7 @@ import nfc
 import nfc.tag
 
 from common import hx, exc_name
-from sims.t12_tags import T2Sim, T1Sim, activate, clone, make_sim, gen_layout, put_ndef
+from sims.t12_tags import T2Sim, T1Sim, activate, clone, make_sim, gen_layout, gen_boundary_layout, put_ndef
 
 
 def canon_skip(s):
@@ -129,10 +129,14 @@ class Run(object):
         return d
 
 
-def layout_with_old(rng, kind, big, oldlens):
-    """well-formed random layout carrying a previous message"""
+BOUNDARY_FREE = [2, 3, 4, 5] + list(range(253, 262))
+
+
+def layout_with_old(rng, kind, big, oldlens, target_free=None):
+    """well-formed random layout carrying a previous message; `target_free`: exact number of
+    non-reserved bytes from the NDEF TLV to the end of the data area"""
     for _ in range(50):
-        lay = gen_layout(rng, kind, big)
+        lay = gen_layout(rng, kind, big) if target_free is None else gen_boundary_layout(rng, kind, target_free)
         if not lay["ok"]:
             continue
         free = len([a for a in range(lay["off"], lay["end"]) if a not in lay["skip"]])
